@@ -26,7 +26,7 @@ ASSUMPTIONS = ['brute-force oracle limited to joints of <= 16384 cells',
                'float comparison rtol max(1e-7, 256*eps*max|potential|), atol 1e-9*total']
 PLAN = {
     'quick': dict(cases=480, budget_s=60, case_timeout=90, min_cases=100),
-    'thorough': dict(cases=15000, budget_s=900, case_timeout=180, min_cases=3000),
+    'thorough': dict(cases=15000, budget_s=600, case_timeout=180, min_cases=2500),
 }
 OPS = ['project', 'project', 'project', 'bulk', 'krondot', 'datavector', 'reload', 'cache', 'uncache']
 
